@@ -392,25 +392,36 @@ Inductive err := EValue | EExists | ENotFound | ENotDir | EIsDir | EUsage.
 Inductive res (A : Type) := Ok (a : A) | Err (e : err).
 Arguments Ok {A}. Arguments Err {A}.
 
+(* path resolution: None if every component of pre ++ rest below pre is a directory, else the
+   OSError the kernel reports (ENOENT at the first missing component, ENOTDIR at a file) *)
+Fixpoint resolve (fs : fsys) (pre rest : path) : option err :=
+  match rest with
+  | [] => None
+  | x :: r => match kind_of fs (pre ++ [x]) with
+              | None => Some ENotFound
+              | Some (KFile _) => Some ENotDir
+              | Some KDir => resolve fs (pre ++ [x]) r
+              end
+  end.
+Definition dir_status (fs : fsys) (p : path) : option err := resolve fs [] p.
+
 (* os.mkdir *)
 Definition mkdir (fs : fsys) (p : path) : fsys * res unit :=
   if pexists fs p then (fs, Err EExists)
   else match split_last p with
        | None => (fs, Err EExists)
        | Some (par, _) =>
-           match kind_of fs par with
-           | None => (fs, Err ENotFound)
-           | Some (KFile _) => (fs, Err ENotDir)
-           | Some KDir => (fs_set fs p KDir, Ok tt)
+           match dir_status fs par with
+           | Some e => (fs, Err e)
+           | None => (fs_set fs p KDir, Ok tt)
            end
        end.
 
 (* os.listdir *)
 Definition oslistdir (fs : fsys) (p : path) : res (list str) :=
-  match kind_of fs p with
-  | None => Err ENotFound
-  | Some (KFile _) => Err ENotDir
-  | Some KDir => Ok (listdir fs p)
+  match dir_status fs p with
+  | Some e => Err e
+  | None => Ok (listdir fs p)
   end.
 
 (* re.match(r/^C+$/, s) for a character class C: one or more class characters and (Python's
@@ -457,10 +468,9 @@ Definition create_file (fs : fsys) (p : path) (overwrite : bool) (content : N) :
   match split_last p with
   | None => (fs, Err EIsDir)
   | Some (par, _) =>
-      match kind_of fs par with
-      | None => (fs, Err ENotFound)
-      | Some (KFile _) => (fs, Err ENotDir)
-      | Some KDir =>
+      match dir_status fs par with
+      | Some e => (fs, Err e)
+      | None =>
           match lookup fs p with
           | Some KDir => (fs, Err (if overwrite then EIsDir else EExists))
           | Some (KFile _) => if overwrite then (fs_set fs p (KFile content), Ok tt) else (fs, Err EExists)
